@@ -221,15 +221,40 @@ fn sweep_partial_ties(tabs: &Tables, rec: &Recorder, all_days: bool, kf1_open: b
     t
 }
 
+/// the tie families used at the ends of the year range: last vs 4th week day of February at the same UTC instant (both
+/// orders), and J60 vs day 60 counted from zero one day apart (both orders)
+pub fn tie_specs() -> Vec<RuleSpec> {
+    let mut v = vec![];
+    for wd in [0u8, 3] {
+        v.push(spec(Day::M(2, 5, wd), Day::M(2, 4, wd), 2 * H, 3 * H, (0, H)));
+        v.push(spec(Day::M(2, 4, wd), Day::M(2, 5, wd), 2 * H, 3 * H, (0, H)));
+    }
+    v.push(spec(Day::J(60), Day::Z(60), H, -22 * H, (0, H)));
+    v.push(spec(Day::Z(60), Day::J(60), H, 26 * H, (0, H)));
+    v.push(spec(Day::J(60), Day::Z(59), 2 * H, 3 * H, (0, H)));
+    v.push(spec(Day::Z(59), Day::J(60), 2 * H, 3 * H, (0, H)));
+    v
+}
+
 /// extreme years: lookups in years i32::MIN+2 / i32::MAX-2 must answer like the model, beyond must be OutOfRange
 fn sweep_extreme_years(cyc: &Cycle, rec: &Recorder, tl: &mut Tally, kf1_open: bool) {
     let days = [Day::J(1), Day::J(365), Day::Z(0), Day::Z(365), Day::M(3, 2, 0), Day::M(11, 1, 0), Day::M(1, 1, 0), Day::M(12, 5, 6), Day::M(2, 5, 3)];
     let combos = quick_combos();
     let mut n = 0u64;
+    let mut specs: Vec<RuleSpec> = vec![];
     for (i, &a) in days.iter().enumerate() {
         for (j, &b) in days.iter().enumerate() {
             let (st, et, o) = combos[(i * 7 + j) % combos.len()];
-            let r = spec(a, b, st, et, o);
+            specs.push(spec(a, b, st, et, o));
+        }
+    }
+    // rules whose start and end coincide in most years (the order then comes from other years, which do not all exist at the
+    // ends of the year range)
+    for spec_tie in tie_specs() {
+        specs.push(spec_tie);
+    }
+    {
+        for r in specs {
             let (ms, md) = (std_type(&r), dst_type(&r));
             let alt = match alt(&r, &ms, &md) {
                 Ok(a) => a,
@@ -246,7 +271,8 @@ fn sweep_extreme_years(cyc: &Cycle, rec: &Recorder, tl: &mut Tally, kf1_open: bo
             let types = [ltt(&ms), ltt(&md)];
             let rule = Some(TransitionRule::Alternate(alt));
             let zr = TimeZoneRef::new(&[], &types, &[], &rule).unwrap();
-            for year in [i32::MIN as i64, i32::MIN as i64 + 1, i32::MIN as i64 + 2, i32::MIN as i64 + 3, i32::MAX as i64 - 3, i32::MAX as i64 - 2, i32::MAX as i64 - 1, i32::MAX as i64] {
+            let years: Vec<i64> = (0..12).map(|k| i32::MIN as i64 + k).chain((0..12).map(|k| i32::MAX as i64 - 11 + k)).collect();
+            for year in years {
                 let ny = cyc.year_start_day(year) * 86400;
                 let mut ts = vec![ny, ny + 1, ny + 86400 * 365 - 1, ny + 86400 * 180];
                 if year > i32::MIN as i64 + 1 && year < i32::MAX as i64 - 1 {
